@@ -255,7 +255,7 @@ func rootType(e excellent.Expression) string {
 var nameSafe = []string{"foo", "bar", "contact", "x", "Foo", "FOO", "bAr", "_a", "x1", "é", "Éa", "名前", "ünï", "K", "truex", "nullable", "t"}
 var funcNames = []string{"upper", "LOWER", "Title", "abs", "max", "min", "if", "and", "or", "text", "number", "array", "object", "join", "split",
 	"default", "count", "text_length", "round", "mean", "sum", "reverse", "concat", "is_error", "word_count", "clean", "foreach", "filter", "boolean", "char", "code"}
-var ctxKeys = []string{"foo", "bar", "contact", "x", "_a", "x1", "é", "éa", "名前", "ünï", "t", "k"}
+var ctxKeys = []string{"foo", "bar", "contact", "x", "_a", "x1", "é", "éa", "名前", "ünï", "t", "k", "webhook"}
 
 type genCfg struct {
 	rareBad bool // allow the shapes of the known findings (numeric lookup after numeric lookup, value ending in a backslash next to another literal, Cherokee names)
@@ -393,6 +393,9 @@ func genExpr(r *hx.Rand, d int, cfg genCfg) string {
 	if r.Intn(18) == 0 {
 		return genLambdaCall(r, d, cfg)
 	}
+	if r.Intn(25) == 0 {
+		return genCaptureShape(r)
+	}
 	if r.Intn(40) == 0 {
 		return genRescaledPower(r)
 	}
@@ -488,6 +491,48 @@ func genLambdaCall(r *hx.Rand, d int, cfg genCfg) string {
 		return "foreach(" + arr + ", (" + p1 + ") => foreach(array(1, 2), (" + p2 + ") => " + use(p1) + " & " + use(p2) + "))"
 	default:
 		return "foreach(" + arr + "," + ws(r) + "(" + ws(r) + p1 + ws(r) + ")" + ws(r) + "=>" + ws(r) + use(p1) + ")"
+	}
+}
+
+// the names the rename oracle renames
+var renameNames = []string{"foo", "bar", "contact", "x", "item", "webhook"}
+
+// free AND bound mentions of one name in ONE expression: the name is a context reference outside and the parameter of
+// an anonymous function inside — same spelling, different case, nested functions, the free mention before and after
+func genCaptureShape(r *hx.Rand) string {
+	v := hx.Pick(r, renameNames)
+	spell := func() string {
+		switch r.Intn(4) {
+		case 0:
+			return strings.ToUpper(v[:1]) + v[1:]
+		case 1:
+			return strings.ToUpper(v)
+		}
+		return v
+	}
+	free, par := v, v
+	if r.Intn(3) == 0 {
+		free = spell()
+	}
+	if r.Intn(3) == 0 {
+		par = spell()
+	}
+	body := hx.Pick(r, []string{par + ".id", par + ".name", par + " * 2", "upper(" + par + ")", par, par + " & " + par})
+	switch r.Intn(6) {
+	case 0:
+		return "foreach(" + free + ".items, (" + par + ") => " + body + ")"
+	case 1:
+		return free + " & foreach(array(1, 2), (" + par + ") => " + body + ") & " + free
+	case 2:
+		return "foreach(array(1, 2), (" + par + ") => " + body + ") & upper(" + free + ")"
+	case 3:
+		// nested: the inner function binds the name, the outer one does not
+		return "foreach(" + free + ".items, (y) => foreach(array(1), (" + par + ") => " + body + " & y)) & " + free
+	case 4:
+		// the outer function binds it; a free mention only outside
+		return "filter(array(1, 2, 3), (" + par + ") => foreach(array(1), (z) => " + par + " & z)) & " + free + ".name"
+	default:
+		return "if(" + free + " = 1, foreach(split(\"a b\", \" \"), (" + par + ", other) => " + body + " & other, " + free + "), " + free + ")"
 	}
 }
 
@@ -908,6 +953,8 @@ func main() {
 		`1 + 2 & 3 = 4`, `TRUE & FaLsE & NuLL`, `(x) => x`, `(a,B) => a & B`, `foreach(array(1,2), (x) => x * 2)`, `(x) => (y) => x + y`, `"a\\"`, `"a\x5c" & "b"`,
 		`"\w+"`, `"a\"b\q"`, "\"a\nb\"", `""`, `"é😀"`, `Ꭰ`, `K`, `İx`, `upper("a")`, `(foo)(1)`, `foo.bar(1)[2].x`, `a[b[c]]`, `(1)`, `((1))`, `1 +`, `(`, `)`, ``, ` `,
 		`foo bar`, `1.`, `.5`, `1..2`, `a.`, `a.b.`, `a[`, `f(,)`, `f(1,)`, `() => 1`, `(1) => 1`, `(x,) => 1`, `x => 1`, `"`, `"abc`, `a ! b`, `a == b`, `a => b`,
+		`foreach(webhook.items, (webhook) => webhook.id)`, `foreach(foo.items, (Foo) => Foo.name) & FOO`, `x & foreach(array(1, 2), (x) => x * 2) & x`,
+		`foreach(item.items, (y) => foreach(array(1), (item) => item & y)) & item`, `filter(array(1, 2, 3), (bar) => foreach(array(1), (z) => bar & z)) & bar.name`,
 		`foreach(array("a","b"), (Item) => upper(Item))`, `filter(array(1,2,3), (X) => X > 1)`, `foreach(array(1,2), (ITEM, Other) => ITEM & Other, "z")`,
 		`foreach(array(1,2), (Outer) => foreach(array(3), (Inner) => Outer * Inner))`, `0.10 ^ 60000 = 0`, `1.50 ^ 1000`, `2.0 ^ 100`, `1.10 * 1.10`, `0.10000 ^ 128 > 1`,
 		strconv.Quote(strings.Repeat("a", 129)), strconv.Quote(strings.Repeat("é", 130)) + ` & "x"`, `upper(` + strconv.Quote(strings.Repeat("ab ", 400)) + `)`,
@@ -1034,7 +1081,20 @@ func main() {
 		}
 
 		// R3
-		from := hx.Pick(rt, []string{"foo", "bar", "contact", "x", "item"})
+		from := hx.Pick(rt, renameNames)
+		var boundCands []string
+		for _, g := range used {
+			for _, a := range g.ti.lambdaArgs {
+				for _, n := range renameNames {
+					if strings.EqualFold(a, n) {
+						boundCands = append(boundCands, n)
+					}
+				}
+			}
+		}
+		if len(boundCands) > 0 && rt.Intn(4) != 0 {
+			from = hx.Pick(rt, boundCands)
+		}
 		to := "zz9"
 		toInUse := false
 		for _, g := range used {
@@ -1058,6 +1118,32 @@ func main() {
 			to2 := hx.Pick(rt, []string{"foo.json", "Bar", "x"})
 			out3, err3 := refactor.Template(tpl, tops2, refactor.ContextRefRename(from, to2))
 			addRef(tpl, tops2, 2, from, to2, out3, err3 != nil)
+		}
+		if from == "webhook" {
+			res.OracleChecks++
+			outW, errW := refactor.Template(tpl, []string{"webhook"}, refactor.ContextRefRename("webhook", "webhook.json"))
+			addRef(tpl, []string{"webhook"}, 2, "webhook", "webhook.json", outW, errW != nil)
+			if errW == nil {
+				for k := 0; k < 3; k++ {
+					ctx := randContext(rt, true)
+					ctxW := map[string]types.XValue{}
+					for kk, v := range ctx {
+						ctxW[kk] = v
+					}
+					ctxW["webhook"] = types.NewXObject(map[string]types.XValue{"json": ctx["webhook"]})
+					// only identifiers with top level webhook are expressions for the migration; evaluate both sides with that list
+					a, ae, ap := templateReal(tpl, ctx)
+					b, be, bp := templateReal(outW, ctxW)
+					if ap != "" || bp != "" {
+						continue
+					}
+					if a != b || ae != be {
+						res.Fail("rename:migrate13_3-value-changed", map[string]any{"template": tpl, "rewritten": outW, "context": types.NewXObject(ctx).Describe()},
+							fmt.Sprintf("Template(%q) = %q err=%v; after ContextRefRename(webhook, webhook.json) %q with webhook nested under json = %q err=%v", tpl, a, ae, outW, b, be))
+						break
+					}
+				}
+			}
 		}
 		if err2 != nil {
 			res.Dist("template:rename-error")
@@ -1101,7 +1187,20 @@ func main() {
 			return c
 		}
 		if okRefs && strings.Join(want, "\x00") != strings.Join(got, "\x00") {
-			res.Fail(renameClass("rename:references-not-exactly-renamed"), map[string]any{"template": tpl, "rewritten": out2, "from": from, "to": to},
+			cls := renameClass("rename:references-not-exactly-renamed")
+			if len(want) == len(got) {
+				for j := range want {
+					if want[j] != got[j] {
+						if want[j] == strings.ToLower(to) {
+							cls = "rename:free-reference-not-renamed"
+						} else if got[j] == strings.ToLower(to) {
+							cls = "rename:lambda-parameter-captured"
+						}
+						break
+					}
+				}
+			}
+			res.Fail(cls, map[string]any{"template": tpl, "rewritten": out2, "from": from, "to": to},
 				fmt.Sprintf("references after the rename are %v, the statement prescribes %v", got, want))
 			continue
 		}
